@@ -10,6 +10,7 @@ import (
 	"encoding/json"
 	"fmt"
 	"net"
+	"net/url"
 	"os"
 	"os/exec"
 	"path/filepath"
@@ -56,6 +57,8 @@ func c04store(ev *verifev.Run, root string, def uint) {
 		// long passwords: no transport except saslauthd has a length limit (1 KiB, 5 KiB, and one whose
 		// JSON encoding is twice its size)
 		{"long1k", long(1100, "k")}, {"long5k", long(5000, "m")}, {"quotes", long(300, "\"\\")},
+		// passwords that look like (or contain) an escape sequence of some transport syntax
+		{"pct", "100%25sure"}, {"amp", "Tr0ub4dor&3"}, {"plus", "a+b c"}, {"ent", "x&amp;y"},
 	}
 	for _, u := range users {
 		must(lib.AddUser(u.name, u.pw, u.name == "admin1"))
@@ -68,7 +71,7 @@ func c04store(ev *verifev.Run, root string, def uint) {
 	// unsupported and unreadable records (internal error => denial on every frontend)
 	must(os.WriteFile(filepath.Join(dir, "dora.user"), []byte("argon2id:1:77:AAAA:AAAA\n"), 0600))
 	must(os.Mkdir(filepath.Join(dir, "edir.user"), 0700))
-	names := []string{"bob", "Bob", "bob ", "BOB", "nob", "bob@realm", "al@x.org", "al", "al@x.org@corp", "bob@a@b", "al@x.org@", "@bob", "bob@", "@", "al@@x.org", "dora", "edir", "colon", "colon2", "uni", "nul", "p255", "p256", "p257", "esc", "sp", "carl", "admin1", "", "tnul", "tlf", "latin", "utf", "binpw", "long1k", "long5k", "quotes", "bob\x00", "bob\n", "\x00bob", "tnul\x00"}
+	names := []string{"bob", "Bob", "bob ", "BOB", "nob", "bob@realm", "al@x.org", "al", "al@x.org@corp", "bob@a@b", "al@x.org@", "@bob", "bob@", "@", "al@@x.org", "dora", "edir", "colon", "colon2", "uni", "nul", "p255", "p256", "p257", "esc", "sp", "carl", "admin1", "", "tnul", "tlf", "latin", "utf", "binpw", "long1k", "long5k", "quotes", "pct", "amp", "plus", "ent", "%62ob", "bob%00", "bob\x00", "bob\n", "\x00bob", "tnul\x00"}
 	var pws []string
 	seen := map[string]bool{}
 	addpw := func(p string) {
@@ -87,6 +90,15 @@ func c04store(ev *verifev.Run, root string, def uint) {
 		addpw(u.pw + "\n")
 		addpw("\x00" + u.pw)
 		addpw(strings.TrimRight(u.pw, "\x00\r\n"))
+		// the URL-escaped and -unescaped readings
+		addpw(url.QueryEscape(u.pw))
+		addpw(url.PathEscape(u.pw))
+		if un, err := url.PathUnescape(u.pw); err == nil {
+			addpw(un)
+		}
+		if un, err := url.QueryUnescape(u.pw); err == nil {
+			addpw(un)
+		}
 	}
 	addpw("")
 	addpw("carl-1")
